@@ -7,8 +7,54 @@ from mc import alphabets as A
 POSITIONS = ('top', 'array', 'table')
 
 
+HOMOG = [
+    ('bool', [True, False]), ('int8', [5, -5, 127, -128]),
+    ('int16', [300, -300, 32767, -32768]), ('uint16', [40000, 65535, 32768]),
+    ('int32', [100000, -100000, 2**31 - 1, -2**31]),
+    ('uint32', [3000000000, 2**32 - 1, 2**31]),
+    ('int64', [2**40, -2**40, 2**63 - 1, -2**63]),
+    ('float', [1.5, -0.0, 2.0**-20]), ('decimal', [A.D('1.5'), A.D('-2.50'),
+                                                    A.D('0')]),
+    ('str', ['s', '', 'é']), ('bytearray', [bytearray(b'x'), bytearray()]),
+    ('timestamp', [A.dt(1600000000), A.dt(0)]), ('none', [None]),
+    ('list', [[1], []]), ('dict', [{'a': 1}, {}]),
+]
+COUNTS = list(range(0, 70)) + [100, 127, 128, 255, 256, 257, 400]
+
+
+def homogeneous(kind_index, tier):
+    """Arrays (and tables) of n elements of one kind, for every n of a dense
+    range, all-same and cycling values; and the same with one element of
+    another type at the first / middle / last position."""
+    name, vals = HOMOG[kind_index]
+    counts = COUNTS + ([512, 1000, 2000] if tier == 'thorough' else [])
+    odd = [7 if name == 'bool' else True, None,
+           'x' if name != 'str' else 1.5]
+    for n in counts:
+        yield [vals[0]] * n
+        if len(vals) > 1:
+            yield [vals[i % len(vals)] for i in range(n)]
+        yield {'k%04d' % i: vals[i % len(vals)] for i in range(n)}
+        if n and (n < 40 or n % 4 == 0):
+            for pos in sorted({0, n // 2, n - 1}):
+                for o in odd:
+                    arr = [vals[i % len(vals)] for i in range(n)]
+                    arr[pos] = o
+                    yield arr
+
+
+# values whose ENCODINGS contain bytes equal to type-tag letters: a decoder
+# that searches or counts tag bytes instead of walking the fields is fooled
+TAGBYTES = [0x62, 0x74, 0x73, 0x49, 0x6c, 0x6262, 0x7373, 0x4949,
+            0x6c6c6c6c, 0x49494949, 0x6c6c6c6c6c6c6c6c, 2**40, 256, 1, True,
+            False, None, 't', 'tt', 'ttttt', 'b', 'bbb', 's', 'ssss', 'l',
+            'long', 'I', 'iIi', 'SS', 'AF', 'V']
+
+
 def value_tasks(tier):
     out = [('scalars',), ('keys',), ('deep',), ('onehot',), ('mixed',)]
+    out += [('tagbytes', i) for i in range(len(TAGBYTES))]
+    out += [('homog', k) for k in range(len(HOMOG))]
     max_nodes = 8 if tier == 'thorough' else 5
     out += [('trees', n) for n in range(2, max_nodes + 1)]
     max_chain = 14 if tier == 'thorough' else 10
@@ -77,6 +123,20 @@ def values(task, tier, seed=0):
                             shape, iter(kinds),
                             lambda s=s, c=counter, h=hot:
                             s if next(c) == h else 1)
+    elif kind == 'tagbytes':
+        first = TAGBYTES[task[1]]
+        yield [first]
+        for b in TAGBYTES:
+            yield [first, b]
+            yield {'k': first, 't': b}
+            for c_ in TAGBYTES:
+                yield [first, b, c_]
+                if tier == 'thorough':
+                    for d in TAGBYTES:
+                        yield [first, b, c_, d]
+    elif kind == 'homog':
+        for v in homogeneous(task[1], tier):
+            yield v
     elif kind == 'chains':
         for v in A.chains(task[1]):
             yield v
